@@ -54,6 +54,10 @@ func (sv structValue) PropertyValue(index Value) Value {
 		return sv.invoke(m)
 	}
 	if field, ok := sv.findField(name); ok {
+		if !field.IsExported() {
+			// reflection cannot read an unexported field
+			return nilValue
+		}
 		fv := sr.FieldByName(field.Name)
 		if fv.Kind() == reflect.Func {
 			return sv.invoke(fv)
